@@ -196,11 +196,11 @@ func (w *worker) beat(phase string, st *state, it int) {
 // setup creates the file, grows it once (so that later small transactions never
 // need to remap the file while a read transaction is open) and creates the
 // empty namespace bucket.
-func (w *worker) setup() error {
+func (w *worker) setup() (opened bool, err error) {
 	if err := w.open(true); err != nil {
-		return err
+		return false, err
 	}
-	err := walletdb.Update(w.db, func(tx walletdb.ReadWriteTx) error {
+	err = walletdb.Update(w.db, func(tx walletdb.ReadWriteTx) error {
 		b, err := tx.CreateTopLevelBucket([]byte("grow"))
 		if err != nil {
 			return err
@@ -208,15 +208,22 @@ func (w *worker) setup() error {
 		return b.Put([]byte("k"), make([]byte, 256<<10))
 	})
 	if err != nil {
-		return err
+		return true, fmt.Errorf("first Update (create a top-level bucket, put one value): %v", err)
 	}
-	return walletdb.Update(w.db, func(tx walletdb.ReadWriteTx) error {
+	err = walletdb.Update(w.db, func(tx walletdb.ReadWriteTx) error {
 		if err := tx.DeleteTopLevelBucket([]byte("grow")); err != nil {
-			return err
+			return fmt.Errorf("DeleteTopLevelBucket of the bucket committed by the previous Update: %v", err)
 		}
 		_, err := tx.CreateTopLevelBucket(nsKey)
 		return err
 	})
+	if err != nil {
+		return true, fmt.Errorf("second Update: %v", err)
+	}
+	if _, k := w.dump(); k != newBucket().String() {
+		return true, fmt.Errorf("after the Update that created the namespace bucket a fresh read transaction shows %s", k)
+	}
+	return true, nil
 }
 
 func (w *worker) restore(m *mbucket) error {
